@@ -60,6 +60,9 @@ func (p *Plan) Fired() bool { return p.failed.Load() }
 type Hooks struct {
 	TxBegin func(tx *ProxyTx)
 	TxEnd   func(tx *ProxyTx, err error) // after the transaction ended (committed or rolled back), before control returns to the shard
+	// TxBodyDone is called (never blocking) when the transaction's callback has returned, before the
+	// storage engine ends the transaction
+	TxBodyDone func(tx *ProxyTx)
 	Op      func(tx *ProxyTx, kind string, n int64)
 }
 
@@ -122,7 +125,9 @@ type ProxyTx struct {
 	Seq      int64
 	Write    bool
 	Goid     int64
+	PreT     int64 // logical time before the storage engine was asked to begin the transaction (its snapshot is taken between PreT and BeginT)
 	BeginT   int64
+	PreEndT  int64 // write transactions: logical time after the callback returned, before the engine commits (the commit becomes visible between PreEndT and EndT)
 	EndT     int64
 	bm       diskstore.BucketManager
 	ended    atomic.Bool
@@ -149,8 +154,8 @@ func Goid() int64 { return goid() }
 
 func (p *Proxy) Path() string { return p.inner.Path() }
 
-func (p *Proxy) begin(bm diskstore.BucketManager, write bool) *ProxyTx {
-	tx := &ProxyTx{p: p, Seq: p.txSeq.Add(1), Write: write, Goid: goid(), bm: bm}
+func (p *Proxy) begin(bm diskstore.BucketManager, write bool, pre int64) *ProxyTx {
+	tx := &ProxyTx{p: p, Seq: p.txSeq.Add(1), Write: write, Goid: goid(), bm: bm, PreT: pre}
 	kind := "begin-read"
 	if write {
 		kind = "begin-write"
@@ -172,11 +177,15 @@ func (tx *ProxyTx) finish() {
 
 func (p *Proxy) Read(f func(diskstore.BucketManager) error) error {
 	var tx *ProxyTx
+	pre := p.clock.Add(1)
 	err := p.inner.Read(func(bm diskstore.BucketManager) error {
-		tx = p.begin(bm, false)
+		tx = p.begin(bm, false, pre)
 		err := f(tx)
 		tx.ok.Store(true)
 		tx.finish()
+		if h := p.hooks.Load(); h != nil && h.TxBodyDone != nil {
+			h.TxBodyDone(tx)
+		}
 		return err
 	})
 	if tx != nil {
@@ -190,8 +199,9 @@ func (p *Proxy) Read(f func(diskstore.BucketManager) error) error {
 
 func (p *Proxy) Write(f func(diskstore.BucketManager) error) error {
 	var tx *ProxyTx
+	pre := p.clock.Add(1)
 	err := p.inner.Write(func(bm diskstore.BucketManager) error {
-		tx = p.begin(bm, true)
+		tx = p.begin(bm, true, pre)
 		err := f(tx)
 		if err == nil {
 			if plan := p.plan.Load(); plan != nil && plan.FailCommit && !plan.failed.Swap(true) {
@@ -201,6 +211,7 @@ func (p *Proxy) Write(f func(diskstore.BucketManager) error) error {
 		}
 		tx.ok.Store(err == nil)
 		tx.finish()
+		tx.PreEndT = p.clock.Add(1)
 		return err
 	})
 	if tx != nil {
